@@ -3,6 +3,7 @@ import FractopoModel.Spec.Validators
 import FractopoModel.Generated.ValidatorTable
 import FractopoModel.Generated.ValidateStep
 import FractopoModel.Lemmas.CropHelpers
+import FractopoModel.Generated.ZCoordinates
 /-!
 # C09 — validation only annotates
 
@@ -274,5 +275,25 @@ window reports. This is the condition under which `run_validation(allow_empty_ar
 theorem C09_generated_is_empty_area {A G : Type} (window : A → List Nat) (meets : G → A → Bool) (area : List A) (traces : List G) :
     Gen.is_empty_area window meets area traces = !(area.any fun a => ((window a).filterMap fun i => traces[i]?).any fun tr => meets tr a) :=
   CropH.generated_is_empty_area window meets area traces
+
+/-! ### z-coordinate removal in front of validation -/
+
+theorem zip_map_self {α β γ : Type} (f : α → β → γ) (g : α → β) (l : List α) : List.zipWith f l (l.map g) = l.map fun r => f r (g r) := by
+  induction l with
+  | nil => rfl
+  | cons a as ih => simp [ih]
+
+/-- **Removing Z values keeps every row where it was.** The regenerated `remove_z_coordinates_from_geodata` (frame branch; the geometries come from
+`.geometry.apply`, which keeps the index labels, and go back by LABEL-ALIGNED column assignment) returns, for EVERY index -- default, permuted, strings,
+duplicated labels --, the same rows in the same order with the same labels and data, each geometry replaced by its own 2-D version: no row gets another
+row's geometry or a missing one, so verdicts stay with their rows. -/
+theorem C09_generated_z_removal {L D G : Type} [BEq L] [LawfulBEq L] (dropz : G → G) (nan : G) (frame : List (L × D × G)) :
+    Gen.remove_z_coordinates_from_geodata dropz nan frame = .ok (frame.map fun r => (r.1, r.2.1, dropz r.2.2)) := by
+  unfold Gen.remove_z_coordinates_from_geodata pyAssignAligned
+  simp only [List.map_map, Function.comp_def]
+  have : (List.map (fun r => r.1) frame == List.map (fun r => r.1) frame) = true := by simp
+  simp only [this, if_true, zip_map_self]
+
+example : Gen.remove_z_coordinates_from_geodata (fun g : Nat => g % 100) 0 [(7, "a", 301), (7, "b", 402), (3, "c", 5)] = .ok [(7, "a", 1), (7, "b", 2), (3, "c", 5)] := by decide
 
 end C09
